@@ -12,7 +12,7 @@ CHECKS = {
         ],
         "assumptions": [
             "reference matcher of DESIGN.md section 4 is the meaning of the core language; cells the documents leave open are discarded and counted",
-            "cases whose reference evaluation needs more than 20000 model steps or 2M VM instructions are discarded and counted",
+            "cases whose reference evaluation needs more than 20000 model steps or 400000 VM instructions are discarded and counted",
         ],
     },
     "C02": {
